@@ -7,6 +7,8 @@ from props import PROPS, LEVEL_TEXT, NOT_APPLICABLE, NOT_CLAIMED  # noqa
 
 checks = []
 for pid in sorted(PROPS):
+    if pid in NOT_CLAIMED:
+        continue
     p = PROPS[pid]
     checks.append({
         "property_id": pid,
@@ -22,7 +24,7 @@ for pid in sorted(PROPS):
     })
 
 na = [{"property_id": k, "reason": v} for k, v in sorted(NOT_APPLICABLE.items())]
-na += [{"property_id": k, "reason": v} for k, v in sorted(NOT_CLAIMED.items()) if k not in PROPS]
+na += [{"property_id": k, "reason": v} for k, v in sorted(NOT_CLAIMED.items())]
 
 m = {
     "version": 1,
@@ -34,7 +36,7 @@ m = {
         "source_commits": [],
         "add_only": True,
     },
-    "engines": [{"name": "iosim", "path": "sim/", "serves_properties": sorted(PROPS), "kind_free_text": "deterministic discrete-event simulator hosting the real client and server as ucontext fibers; keyed PRNG decisions; fork-per-run; ASan+UBSan"}],
+    "engines": [{"name": "iosim", "path": "sim/", "serves_properties": sorted(k for k in PROPS if k not in NOT_CLAIMED), "kind_free_text": "deterministic discrete-event simulator hosting the real client and server as ucontext fibers; keyed PRNG decisions; fork-per-run; ASan+UBSan"}],
     "checks": checks,
     "not_applicable": na,
     "notes": "known_findings.json lists genuine defects (fixed ones name their fix: commit in /repo). VERIF_SEED selects the seed block, VERIF_TIER overrides the tier, VERIF_SCALE scales run counts.",
